@@ -124,6 +124,14 @@ func TestMakeReplays(t *testing.T) {
 	write("C09", "c09dyn", "number-and-text-one-group", "group by json(value)['n'] put the number 1 and the text \"1\" into one group", &c09DynCase{Pairs: []lib.Pair{{K: "k0", V: `{"n": 1}`}, {K: "k1", V: `{"n": "1"}`}, {K: "k2", V: `{"n": 1.0}`}}, Batch: 2})
 	write("C09", "c09", "simplified-aggregate-inside-call", "select str(count(1) > 0 | 1 = 1) returned one row per pair", &c09Case{Stmt: &lib.Stmt{Kind: "select", Fields: []lib.SelField{{E: lib.Call("str", lib.Bin("+", lib.Call("count", lib.Int(1)), lib.Int(0)))}, {E: lib.Bin("|", lib.Bin(">", lib.Call("count", lib.Int(1)), lib.Int(100)), lib.Bin("=", lib.Int(1), lib.Int(1)))}}, Where: lib.Bin("!=", lib.Key(), lib.Str("zz"))}, Pairs: abc, Batch: 2})
 
+	// ---- third audit wave ------------------------------------------------------------------
+	write("C14", "c14", "aggregate-through-group-by", "select count(1) as c, key .. group by c was accepted and failed with Cannot find function count", &c14Case{Raw: "select count(1) as c, key where key ^= 'a' group by c", Mutant: true, Fault: "aggregate-reached-through-group-by", Pairs: abc})
+	write("C14", "c14", "subscript-behind-list-element", "int_list(1,2)[0]['x'] was accepted and failed on the first row", &c14Case{Raw: "select int_list(1,2)[0]['x'] where key = 'a'", Mutant: true, Fault: "subscript-behind-list-element", Pairs: abc})
+	write("C14", "c14", "where-is-a-boolean-name", "select key, is_int(value) as b where b was refused", &c14Case{Raw: "select key, is_int(value) as b where b", Pairs: abc})
+	write("C10", "c10", "list-of-numeric-texts", "list('007', '1')[0] was the integer 7", &c10Case{E: lib.Index(lib.Call("list", lib.Str("007"), lib.Str("1")), 0), K: "k", V: "unused", Fn: "list(text)[n]", Form: "const"})
+	write("C01", "c01", "in-list-of-numeric-texts", "value in list('1', '2') matched nothing", &c01Case{Stmt: sel(lib.InList(lib.Value(), lib.Call("list", lib.Str("1"), lib.Str("2")))), Pairs: abc, Batch: 2})
+	write("C09", "c09dyn", "null-and-empty-text-one-group", "a null JSON member and the empty text shared a group", &c09DynCase{Pairs: []lib.Pair{{K: "k0", V: `{"n": null}`}, {K: "k1", V: `{"n": ""}`}, {K: "k2", V: `{"n": "x"}`}}, Batch: 2})
+
 	write("C03", "c03", "limit-skip-boundary", "limit 2,2 with batch size 2 returned rows 0-1", &c03Case{Stmt: &lib.Stmt{Kind: "select", Star: true, Where: lib.Bin("!=", lib.Key(), lib.Str("zz")), Lim: &lib.Limit{Start: 2, Count: 2, Two: true}}, Pairs: abc, Batch: 2, Batch2: 32})
 	write("C03", "c03", "in-split-row", "'1' in split(value, ',') failed row at a time only", &c03Case{Stmt: &lib.Stmt{Kind: "select", Fields: []lib.SelField{{E: lib.Key()}, {E: lib.Call("split", lib.Value(), lib.Str(","))}}, Where: lib.InList(lib.Str("1"), lib.Call("split", lib.Value(), lib.Str(",")))}, Pairs: abc, Batch: 2, Batch2: 32})
 	write("C03", "c03", "list-index-row", "list(1,2,3)[1] failed row at a time only", &c03Case{Stmt: &lib.Stmt{Kind: "select", Fields: []lib.SelField{{E: lib.Index(lib.Call("list", lib.Int(1), lib.Int(2), lib.Int(3)), 1)}}, Where: lib.Bin("^=", lib.Key(), lib.Str("a"))}, Pairs: abc, Batch: 2, Batch2: 32})
